@@ -2,3 +2,4 @@ pub use vcore::{alphabet, report};
 pub mod props;
 pub mod subjects;
 pub mod refmap;
+pub mod special;
